@@ -15,5 +15,5 @@ def run(ctx, rep):
         lambda i, r, o: skel.s8_report_first(i, r),
         lambda i, r, o: skel.s2_complete(i, r),
     ])
-    common.g_rules(ctx, rep, ["E1", "F1", "F2", "F5"], floors={"E1": 300, "F1": 300})
+    common.g_rules(ctx, rep, ["E1", "F1", "F2", "F5", "F8"], floors={"E1": 300, "F1": 300})
     tval.tval_rule(ctx, rep)
